@@ -333,6 +333,28 @@ func (e *c10env) ids(names []string) []int {
 	return out
 }
 
+// stats scope that signals when the job's disk_usage gauge is updated, i.e. a pass is over
+type c10scope struct {
+	tally.Scope
+	done chan struct{}
+}
+
+func (s c10scope) Tagged(t map[string]string) tally.Scope { return c10scope{s.Scope.Tagged(t), s.done} }
+func (s c10scope) Gauge(name string) tally.Gauge          { return c10gauge{s.Scope.Gauge(name), s.done} }
+
+type c10gauge struct {
+	tally.Gauge
+	done chan struct{}
+}
+
+func (g c10gauge) Update(v float64) {
+	g.Gauge.Update(v)
+	select {
+	case g.done <- struct{}{}:
+	default:
+	}
+}
+
 func (c c10cfg) real(disabled bool) CleanupConfig {
 	return CleanupConfig{Disabled: disabled, Interval: time.Duration(c.interval), TTI: time.Duration(c.tti), TTL: time.Duration(c.ttl),
 		AggressiveThreshold: int(c.athr), AggressiveTTL: time.Duration(c.attl), AggressiveLowerThreshold: int(c.alow)}
@@ -444,26 +466,17 @@ func (e *c10env) exec(o *c10op) string {
 		// advances by o.a (exactly one period, or just short of it), the job is stopped. The end of
 		// the pass is observed through the disk_usage gauge the job updates after each run.
 		u1, err1 := diskspaceutil.Usage()
-		scope := tally.NewTestScope("", nil)
-		m := newCleanupManager(e.clk, scope)
+		done := make(chan struct{}, 4)
+		m := newCleanupManager(e.clk, c10scope{tally.NoopScope, done})
 		w := e.wrap(o)
 		cc := o.cfg.real(o.flag)
 		m.addJob("cache", cc, w)
 		fires := !o.flag && o.a >= int64(cc.applyDefaults().Interval)
 		e.clk.Add(time.Duration(o.a))
 		if fires {
-			done := false
-			for i := 0; i < 20000 && !done; i++ {
-				for _, g := range scope.Snapshot().Gauges() {
-					if g.Name() == "disk_usage" {
-						done = true
-					}
-				}
-				if !done {
-					time.Sleep(500 * time.Microsecond)
-				}
-			}
-			if !done {
+			select {
+			case <-done:
+			case <-time.After(20 * time.Second):
 				e.incon = "periodic job did not finish"
 			}
 		} else {
